@@ -383,21 +383,25 @@ class Unit:
                 b = b.replace(a, c)
                 self.rw.hit('Wsub')
         # --- contract block: split into clauses / inv / at ---
-        clauses, invs, ats = [], [], []
+        clauses, invs, ats, afters = [], [], [], []
         k = 0
         while k < len(block):
             lno, ln = block[k]
             st = ln.strip()
-            if st.startswith('//@inv ') or st.startswith('//@at '):
+            if st.startswith('//@inv ') or st.startswith('//@at ') or st.startswith('//@after '):
                 is_inv = st.startswith('//@inv ')
+                is_after = st.startswith('//@after ')
                 rx = st.split(' ', 1)[1].strip()
-                endtok = '//@endinv' if is_inv else '//@endat'
+                endtok = '//@endinv' if is_inv else ('//@endafter' if is_after else '//@endat')
                 payload = []
                 k += 1
                 while k < len(block) and block[k][1].strip() != endtok:
                     payload.append(block[k])
                     k += 1
-                (invs if is_inv else ats).append((rx, payload))
+                if is_after:
+                    afters.append((rx, payload))
+                else:
+                    (invs if is_inv else ats).append((rx, payload))
                 k += 1
             else:
                 clauses.append((lno, ln))
@@ -414,7 +418,7 @@ class Unit:
         for tag, i1, i2, j1, j2 in sm.get_opcodes():
             for j in range(j1, j2):
                 mapping[j] = (i1 + (j - j1)) if tag == 'equal' else min(i1, len(old_bl) - 1)
-        used_inv, used_at = set(), set()
+        used_inv, used_at, used_after = set(), set(), set()
         for j, ln in enumerate(bl):
             for ai, (rx, payload) in enumerate(ats):
                 if ai not in used_at and re.search(rx, ln):
@@ -440,6 +444,13 @@ class Unit:
             else:
                 self.lines.append(ln)
                 self.origin.append(('src', rel, body_line + mapping[j]))
+            for ai, (rx, payload) in enumerate(afters):
+                if ai not in used_after and re.search(rx, ln):
+                    used_after.add(ai)
+                    for lno, pl in payload:
+                        self.emit(pl, ('tpl', rel_tpl, lno))
+        if len(used_after) != len(afters):
+            raise AnchorLost('%s::%s: proof-hint anchor(s) not found: %s' % (rel, name, [afters[i][0] for i in range(len(afters)) if i not in used_after]))
         if len(used_inv) != len(invs) or len(used_at) != len(ats):
             missing = [invs[i][0] for i in range(len(invs)) if i not in used_inv] + \
                       [ats[i][0] for i in range(len(ats)) if i not in used_at]
